@@ -32,6 +32,16 @@ def impl(c):
     out["superstable"] = bool(dh2.configuration.is_superstable()) if G["n"] <= 7 else None
     if unb_ids:
         dh.legal_set_fire(set(unb)); out["after_fire"] = common.div_to_list(G, dh.configuration.divisor)
+    # history on the SAME DharAlgorithm object (what the EWD loop does): burn, fire the returned set, burn again ... every burn must be the
+    # maximal legal firing set of the configuration it was asked about
+    rounds = []; cur = unb
+    for _ in range(6):
+        if not isinstance(common.div_to_list(G, dh.configuration.divisor), list): break
+        cfgb = common.div_to_list(G, dh.configuration.divisor); u2, _ = dh.run()
+        rounds.append([cfgb, sorted(idx[x] for x in u2)])
+        if not u2: break
+        dh.legal_set_fire(set(u2))
+    out["rounds"] = rounds
     if c.get("subsets"):
         from chipfiring.CFConfig import CFConfig
         cfg = CFConfig(common.build_impl_divisor(G, conc, rng=rng), names[c["q"]])
@@ -46,7 +56,7 @@ def model_lines(c, r):
     g = common.enc_graph(c["G"])
     if "exc" in r or not isinstance(r["ok"]["conc"], list): return [["info"] + g]
     return [["concok"] + g + [c["q"]] + common.enc_list(c["D"]) + common.enc_list(r["ok"]["conc"]),
-            ["burn"] + g + [c["q"]] + common.enc_list(r["ok"]["conc"])]
+            ["burn"] + g + [c["q"]] + common.enc_list(r["ok"]["conc"])] + [["burn"] + g + [c["q"]] + common.enc_list(cfgb) for cfgb, _ in r["ok"].get("rounds", [])]
 
 def judge(c, r, mo):
     if "exc" in r: return [{"what": "implementation raised %s: %s" % (r["exc"], r.get("msg"))}]
@@ -63,6 +73,9 @@ def judge(c, r, mo):
         out.append({"what": "is_superstable=%s but the burn leaves %s unburnt" % (o["superstable"], U)})
     if "after_fire" in o and any(o["after_fire"][v] < 0 for v in o["unburnt"]):
         out.append({"what": "firing the returned set %s put a member in debt: %s" % (o["unburnt"], o["after_fire"])})
+    for i, (cfgb, u2) in enumerate(o.get("rounds", [])):
+        line = mo[2 + i]; kk = int(line[0]); U2 = sorted(int(x) for x in line[1:1 + kk])
+        if u2 != U2: out.append({"what": "burn #%d on the same DharAlgorithm object returned %s for configuration %s (q=%d); its maximal legal firing set is %s" % (i + 2, u2, cfgb, c["q"], U2)}); break
     if "union_legal" in o and o["union_legal"] != U: out.append({"what": "union of all legal subsets (implementation's own test) is %s, run() returned %s, model %s" % (o["union_legal"], o["unburnt"], U)})
     return out
 
@@ -78,6 +91,11 @@ def oracle(c, r):
             if O.legal(m, o["conc"], S): union |= S
         if sorted(union) != o["unburnt"]: why.append("union of legal sets %s != returned %s" % (sorted(union), o["unburnt"]))
         if o.get("superstable") is not None and o["superstable"] != (len(union) == 0): why.append("is_superstable wrong")
+        for i, (cfgb, u2) in enumerate(o.get("rounds", [])):
+            un = set()
+            for S in O.subsets(others):
+                if O.legal(m, cfgb, S): un |= S
+            if sorted(un) != u2: why.append("burn #%d on the same object: union of legal sets of %s is %s, returned %s" % (i + 2, cfgb, sorted(un), u2)); break
     return {"violates": bool(why), "why": why}
 
 def nontrivial(cases):
